@@ -147,7 +147,7 @@ class Rejected(actors.Party):
         if self.first:
             # a bucket that is created and deleted at once leaves a stale handle behind for later
             self.first = False
-            return [{"op": "create", "b": "tmp", "meta": gen.meta(r, wild=False)}, {"op": "delete_bucket", "b": "tmp"}]
+            return [{"op": "create", "b": "tmp", "meta": actors.named(gen.meta(r, wild=False), self.cfg)}, {"op": "delete_bucket", "b": "tmp"}]
         x = r.random()
         if x < 0.25:
             return {"op": "delete_bucket", "b": r.choice(self.buckets + ["ghost"])}
@@ -197,7 +197,7 @@ class C06(Check):
         lat = gen.lattice(rs["lat"])
         uid = actors.UID()
         clock = r.choice(["burst", "burst", "trickle", "idle", "skew"])
-        cfg = {"lat": lat, "alphabet": 3, "bulk_max": r.choice([4, 30, 70, 130, 300]), "upsert_p": r.choice([0.0, 0.2, 0.5]), "uid": uid, "clock": clock, "dirty_p": 0.5, "wild_meta": False}
+        cfg = {"lat": lat, "alphabet": 3, "bulk_max": r.choice([4, 30, 70, 130, 300]), "upsert_p": r.choice([0.0, 0.2, 0.5]), "uid": uid, "clock": clock, "dirty_p": 0.5, "wild_meta": False, "always_name": True}
         steps = actors.creates(rs["meta"], buckets[: r.randrange(1, nb + 1)], cfg)
         parties = []
         for k, b in enumerate(buckets):
@@ -224,7 +224,7 @@ class C06(Check):
             "ticker": 0.4,
             "operator": r.choice([0.0, 0.05, 0.15]),
         }
-        nsteps = r.choice([3, 6, 12, 25, 50, 110])
+        nsteps = r.choice([3, 6, 12, 25, 50, 110] + ([220, 440] if tier == "thorough" else []))
         sched = actors.schedule(rs["sched"], parties, weights, nsteps)
         sched = [s for s in sched if s["op"] != "new_datastore"]
         # at most 3 dirty restarts per run
